@@ -123,6 +123,19 @@ def sentinelsOk (r : OpRow) : Bool :=
 /-- C09 with everything advertised: what the code asserts is what the documentation requires. -/
 def gatingOk (r : OpRow) : Bool := !(isSent r && allCaps r) || sameSet r.asserted (required r)
 
+/-- Parameter elements that exist only under a capability (RFC 6241 §8.4 confirmed commit, §8.6 validate,
+    RFC 6243 with-defaults): operation, element, capability. -/
+def gatedParams : List (String × String × String) :=
+  [("commit", "confirmed", ":confirmed-commit"), ("commit", "confirm-timeout", ":confirmed-commit"),
+   ("commit", "persist", ":confirmed-commit"), ("edit_config", "test-option", ":validate"),
+   ("get", "with-defaults", ":with-defaults"), ("get_config", "with-defaults", ":with-defaults")]
+
+/-- C09 at wire level: a capability-dependent parameter element is on the wire only if that capability
+    was asserted — whatever combination of arguments produced it. -/
+def gatedParamsOk (r : OpRow) : Bool :=
+  !(isSent r && allCaps r) ||
+  gatedParams.all fun g => !(r.op = s g.1 && s g.2.1 ∈ r.params) || s g.2.2 ∈ r.asserted
+
 /-- C09 with one required capability missing: refused locally, nothing on the wire. -/
 def refusalOk (r : OpRow) : Bool :=
   allCaps r || ((r.outcome = s "exc:MissingCapabilityError" || r.outcome = s "exc:WithDefaultsError" ||
